@@ -331,7 +331,11 @@ OutConnect(h, d) ==
       h7 == Check(h6, d.userf = (IF c.hasauth THEN 1 ELSE 0) /\ d.passf = d.userf
                       /\ (c.hasauth => d.user = c.user /\ d.pass = c.pass),
                   "C09", "CONNECT user name / password differ from the configuration")
-  IN h7
+      h8 == IF c.haswill
+            THEN Check(Tick(h7, "C19"), ReqPropsOk(c.will.props, CtxWill), "C19",
+                       "a will with illegal properties was accepted and sent")
+            ELSE h7
+  IN h8
 
 OutDisconnect(h, d) ==
   LET o == h.op
@@ -752,7 +756,15 @@ RetDrive(h, e) ==
             THEN CheckKF(h6, FALSE, "C06", "a QoS 2 exchange was dropped because too many wait for PUBCOMP", "D6", TRUE)
             ELSE h6
       h8 == IF o.hasmsg /\ r.k = "ok" /\ r.hasmsg /\ SameMsg(r.msg, o.msg) THEN C20Check(h7, o.msg, r.msg.probe) ELSE h7
-  IN h8
+      \* C14: a mandatory acknowledgement that does not fit the broker's Maximum Packet Size ends the
+      \* connection (every acknowledgement of this client is five bytes long).  Known finding D14.
+      h9 == IF r.k = "err" /\ r.v = "PacketTooLarge" /\ h.aw < Len(h.owed) /\ h.ack.have
+               /\ h.ack.maxpkt >= 0 /\ h.ack.maxpkt < 5 /\ ~h.dcconn
+            THEN CheckKF(Tick(h8, "C14"), ~e.obs.live, "C14",
+                         "an owed acknowledgement does not fit the Maximum Packet Size and the connection was not closed",
+                         "D14", TRUE)
+            ELSE h8
+  IN h9
 
 RetConn(h, e) ==
   LET o == h.op  r == e.r  a == h.ack
@@ -948,6 +960,12 @@ Step(h0, e) ==
     [] e.e = "drainend" -> StepDrainEnd(h, e)
     [] e.e = "twin" -> StepTwin(h, e)
     [] e.e = "capstart" -> [h EXCEPT !.sum = EmptySum]
+    \* C19: Will::new refuses exactly the wills whose properties are not legal on a will
+    [] e.e = "cfgerr" ->
+         IF e.what = "will" /\ e.err = "InvalidConfig"
+         THEN Check(Tick(h, "C19"), ~ReqPropsOk(h.cfg.will.props, CtxWill), "C19",
+                    "a will with legal properties was refused as invalid")
+         ELSE h
     [] e.e = "end" -> IF PrintT("@STAT " \o ToJson([run |-> h.cfg.name, n |-> h.n])) THEN h ELSE h
     [] OTHER -> h
 
